@@ -37,6 +37,7 @@ package extgrpc
 //@   ensures result1 ==> typeis(result0, codes.Code) && result0.(codes.Code) == err.(*withGrpcCode).code
 
 //@ spec func grpcCodeOf(e error) codes.Code
+
 //@ func GetGrpcCode
 //@   props C07 C11 C20
 //@   defines grpcCodeOf(err)
